@@ -64,7 +64,10 @@ VX_OTHER2 = FieldSet('vx_other2', o_p=FM(T, str), o_s=FM(TP, np.float64))
 VX_ALLOPT = FieldSet('vx_allopt', a_p=FM(TP, np.float64, required=False),
                      a_s=FM(T, np.int64, required=False), a_str=FM(T, str, required=False))
 
-ALL = {'vx_allopt': VX_ALLOPT, 'vx_other2': VX_OTHER2, 'vx_optfirst': VX_OPTFIRST, 'vx_simple': VX_SIMPLE, 'vx_species': VX_SPECIES, 'vx_modes': VX_MODES,
+# a short, legal field-set name (also a substring of the base set's name)
+VX_SE = FieldSet('se', e_p=FM(TP, np.float32), e_s=FM(T, np.int64))
+
+ALL = {'se': VX_SE, 'vx_allopt': VX_ALLOPT, 'vx_other2': VX_OTHER2, 'vx_optfirst': VX_OPTFIRST, 'vx_simple': VX_SIMPLE, 'vx_species': VX_SPECIES, 'vx_modes': VX_MODES,
        'vx_other': VX_OTHER}
 
 SPECIES = list(Species)
